@@ -164,8 +164,8 @@ pub fn conforms_tcp(table: char, s: &TSig, g: &Seg) -> bool {
     if g.frag || !syn || fin || rst || (table == 'q') == ack { return false; }
     match s.version { IpVersion::V4 => if g.v6 { return false; }, IpVersion::V6 => if !g.v6 { return false; }, IpVersion::Any => {} }
     let t = g.ttl as u32;
-    let ttl_ok = match s.ittl { Ttl::Bad(i) => t <= i as u32, Ttl::Value(i) | Ttl::Guess(i) => t <= i as u32 && i as u32 - t <= 30,
-                                Ttl::Distance(a, b) => { let i = a as u32 + b as u32; t <= i && i - t <= 30 } };
+    let ttl_ok = match s.ittl { Ttl::Bad(i) => t <= i as u32 && (t > 0 || i == 0), Ttl::Value(i) | Ttl::Guess(i) => t <= i as u32 && i as u32 - t <= 30,
+                                Ttl::Distance(a, b) => { let i = (a as u32 + b as u32).min(255); t <= i && i - t <= 30 } };
     if !ttl_ok || g.olen != s.olen as usize { return false; }
     // a number admits itself; 0 also admits "option absent" (p0f reads a missing MSS / WS option as 0)
     if let Some(m) = s.mss { if g.mss.unwrap_or(0) != m { return false; } }
